@@ -756,6 +756,8 @@ def cv_tok(case):
 def to_line(case):
     if case.get("kind") == "setp":
         return setp_line(case)
+    if unpredictable(case) and not _OBS.get(json.dumps(case, sort_keys=True)):
+        return None        # the draw cannot be predicted and the search failed before any row existed: candidates unknown
     ref = reference(case)
     ents = []
     for t in sorted(ref["entries"]):
@@ -1268,9 +1270,12 @@ def _exog_case(rng):
     if fc == "reduce":
         grid = [rng.choice([{"window_length": _pick(rng, [2, 3, 4], 2, 3)},
                             {"window_length": _pick(rng, [2, 3, 4], 1, 2), "estimator__fit_intercept": [True, False]}])]
-        cv = {"k": rng.choice("se"), "fh": rng.choice([[1], [1, 2]]), "wl": rng.randrange(8, 11), "step": rng.randrange(2, 4),
-              "iw": None, "sww": True}
-        fitfh = list(cv["fh"])
+        # ONE fold (the window ends max(fh) before the end of y): evaluate() re-fits the same forecaster object fold after fold with the
+        # fold's absolute horizon, which a forecaster that requires fh in fit rejects from the second fold on (ValueError for
+        # every candidate; kept as a rare failing stream)
+        fh_ = rng.choice([[1], [1, 2], [1, 2, 3]])
+        cv = {"k": rng.choice("se"), "fh": fh_, "wl": n - max(fh_) - (3 if rng.random() < 0.1 else 0), "step": 2, "iw": None, "sww": True}
+        fitfh = list(fh_)
     else:
         grid = _rand_grid(rng, fc)
         cv = _rand_cv(rng, n)
